@@ -68,15 +68,18 @@ def classify(rec):
     if fid is not None:
         return fid
     pg = rec["program"]
-    if rec["verdict"] == "sql-err":
-        # F27 with a second, bounded take later in the program: classify_common only looks at the LAST OFFSET of the text
-        msg = (rec.get("sqlite") or {}).get("exec_err", "")
-        if 'near "OFFSET"' in msg and re.search(r"(?<!LIMIT \d)(?<!LIMIT \d\d) OFFSET \d+", rec.get("sql") or "") \
-                and any(s.kind == "take" and s.info.get("rng", (None, 0))[1] is None for s in pg.steps):
-            return "F27-offset-without-limit" if rec["target"] == "sql.sqlite" else "oracle-generic-offset"
     sql = rec.get("sql") or ""
     v = rec["verdict"]
     wcols = pg.meta.get("wcols") or {}
+    # F53 (same root as F29, without the panic): the generated column of a computed sort key is used by the ORDER BY .. LIMIT
+    # of a CTE whose input CTE does not project it, once a later group has made the sort "unneeded"
+    if v == "sql-err":
+        m = re.search(r"no such column: (_expr_\d+)", str(rec.get("sqlite")))
+        ks = pg.kinds()
+        if m and re.search(r"ORDER BY [^()]*\b%s\b[^()]* LIMIT" % m.group(1), sql) and "take" in ks \
+                and any(k in ("group_win", "group_agg", "group_take") for k in ks[ks.index("take"):]) \
+                and any(s.kind == "sort" and any(e[0] != "col" for _, e in s.info.get("keys", [])) for s in pg.steps[:ks.index("take")]):
+            return "F53-sort-key-column-lost-before-take"
     # F51: a window function written directly as a sort key is lowered without any window (no OVER)
     direct = [m for m in wcols.values() if m.get("sortdirect")]
     if direct and v in ("rows", "sql-err"):
@@ -197,7 +200,7 @@ def placement_cases(ck):
         sort = rng.choice(["id", "id", "-id", "c,id", "-c,id", "a,-id", "c", "a", "none"])
         fr = rng.choice(frames) if rng.random() < 0.8 else ("none",)
         pl = rng.choice(["derive", "derive", "select", "filter", "filter", "sort"])
-        pre = rng.choice(["none", "none", "filter", "take", "groupagg"])
+        pre = rng.choice(["none", "none", "filter", "take", "groupagg", "join"])
         post = rng.choice(["none", "filter", "take", "aggregate", "groupagg", "derive", "window2"])
         proto = W.Case(part, sort, fr, (), pl, pre, post)
         avail = ["g", "c", "b", "id"] if pre == "groupagg" else ["id", "a", "b", "c", "g"]
@@ -205,7 +208,7 @@ def placement_cases(ck):
         # they have their own stream (f22_cases)
         pool = [f for f in W.FUNCS if not W.f22_class(f, fr, sort != "none") or (pl in ("derive", "select") and post in ("none", "take"))]
         fns = W.pick_fns(rng, proto, avail, 1 if pl in ("filter", "sort") else rng.randint(1, 2), pool=pool)
-        c = W.Case(part, sort, fr, fns, pl, pre, post, thr=rng.choice([0, 1, 2]), paren=rng.random() < 0.5)
+        c = W.Case(part, sort, fr, fns, pl, pre, post, thr=rng.choice([0, 1, 2]), paren=rng.random() < 0.5, side=rng.choice(["Inner", "LeftJ"]))
         if W.valid(c):
             cases.append(c)
     return cases
@@ -290,11 +293,12 @@ def with_instances(ck, cases, n_inst=1):
 
 
 def random_cases(ck, n):
-    g = W.WinGen(ck.rng, max_steps=6, weights={"win": 4.0, "group_win": 3.0, "join": 0.0, "append": 0.0, "distinct": 0.2, "sort": 3.0})
+    g = W.WinGen(ck.rng, max_steps=6, weights={"win": 4.0, "group_win": 3.0, "join": 0.6, "append": 0.0, "distinct": 0.2, "sort": 3.0})
     cases = []
     for _ in range(n):
         force = ck.rng.choice([["sort", "win"], ["group_win"], ["sort", "win", "filter"], ["filter", "sort", "win"], ["sort", "take", "win"], ["sort", "win", "take"],
-                               ["group_win", "filter"], ["sort", "win", "aggregate"], ["group_win", "group_agg"], ["sort", "win", "sort", "win"], []])
+                               ["group_win", "filter"], ["sort", "win", "aggregate"], ["group_win", "group_agg"], ["sort", "win", "sort", "win"],
+                               ["sort", "join", "win"], ["sort", "join", "win", "filter"], []])
         pg = g.program(force=force)
         cases.append((pg, [W.gen_instance(ck.rng)]))
     return cases
